@@ -1,5 +1,5 @@
 (* Run/Tokio.v — tokio-side families: APOLL (20) / APOLLSTEP (21) for C17, ARF (22) / ARFSTEP (25) for C14, C15. *)
-From FB Require Import Sem.Base Sem.ReadBuf Model.Fb Model.Deframers Model.Tokio Model.TokioAsync Spec.Api Run.Codec Run.Api Run.Rf.
+From FB Require Import Sem.Base Sem.ReadBuf Sem.Async Model.Fb Model.Deframers Model.Tokio Model.TokioAsync Spec.Api Run.Codec Run.Api Run.Rf.
 Open Scope Z_scope.
 
 (* the scripted async reader (harness `AScriptReader`): the blocking script language + tag 3 = Poll::Pending *)
@@ -95,32 +95,19 @@ Definition enc_frame (r : fueled frame_res) : list Z :=
   end.
 Definition enc_io_z (r : io Z) : list Z := match r with Ok n => [0; n] | Err k => [1; enc_ekind k] end.
 
-(* drive one call to completion: poll; at every Pending consume one cancel bit (1 = drop the future and start a new call) *)
-Fixpoint drive_rf (n : nat) (fuel : nat) (which : Z) (f : fut) (cancel : list Z) (npolls ncancel : Z) (w : fb * sreader)
-  : list Z * list Z * Z * Z * (fb * sreader) :=
-  match n with
-  | O => ([-7], cancel, npolls, ncancel, w)
-  | S m =>
-    match arf_poll chk ASR fuel (df_sel chk which) f w with
-    | Val (_, PReady r) w' => (enc_frame r, cancel, npolls + 1, ncancel, w')
-    | Val (f', PPending) w' =>
-        if negb (hd 0 cancel =? 0) then drive_rf m fuel which FStart (tl cancel) (npolls + 1) (ncancel + 1) w'
-        else drive_rf m fuel which f' (tl cancel) (npolls + 1) ncancel w'
-    | Panic w' => ([PANIC], cancel, npolls + 1, ncancel, w')
-    end
+(* one call driven to completion by the modelled lowering (Sem/Async.v `drive`) *)
+Definition bits (l : list Z) : list bool := map (fun z => negb (z =? 0)) l.
+Definition enc_out_rf (o : out (fb * sreader) frame_res) : list Z * (fb * sreader) :=
+  match o with
+  | Ready r w => (enc_frame (Done r), w)
+  | Panicked w => ([PANIC], w)
+  | Exhausted w => ([-7], w)
   end.
-Fixpoint drive_co (n : nat) (f : fut) (cancel : list Z) (npolls ncancel : Z) (w : fb * sreader)
-  : list Z * list Z * Z * Z * (fb * sreader) :=
-  match n with
-  | O => ([-7], cancel, npolls, ncancel, w)
-  | S m =>
-    match aco_poll chk ASR f w with
-    | Val (_, PReady r) w' => (enc_io_z r, cancel, npolls + 1, ncancel, w')
-    | Val (f', PPending) w' =>
-        if negb (hd 0 cancel =? 0) then drive_co m FStart (tl cancel) (npolls + 1) (ncancel + 1) w'
-        else drive_co m f' (tl cancel) (npolls + 1) ncancel w'
-    | Panic w' => ([PANIC], cancel, npolls + 1, ncancel, w')
-    end
+Definition enc_out_co (o : out (fb * sreader) (io Z)) : list Z * (fb * sreader) :=
+  match o with
+  | Ready r w => (enc_io_z r, w)
+  | Panicked w => ([PANIC], w)
+  | Exhausted w => ([-7], w)
   end.
 Definition count_pend (before after : list (Z * Z * Z)) : Z :=
   let used := firstn (length before - length after) before in
@@ -129,12 +116,14 @@ Definition count_pend (before after : list (Z * Z * Z)) : Z :=
 Definition arf_call (SIZE which mode total wakes0 : Z) (cancel : list Z) (w : fb * sreader) : list Z * list Z * Z * (fb * sreader) :=
   let rs0 := {| sr_stream := sr_stream (snd w); sr_script := sr_script (snd w); sr_log := [] |} in
   let bound := S (S (length (sr_stream rs0) + length (sr_script rs0))) in
-  let '(out, cancel', npolls, ncancel, w') :=
-    if mode =? 0 then drive_rf bound bound which FStart cancel 0 0 (fst w, rs0)
-    else drive_co bound FStart cancel 0 0 (fst w, rs0) in
+  let '(out, w') :=
+    if mode =? 0 then enc_out_rf (arf_drive chk ASR bound (bits cancel) (df_sel chk which) (fst w, rs0))
+    else enc_out_co (aco_drive chk ASR bound (bits cancel) (fst w, rs0)) in
   let np := count_pend (sr_script rs0) (sr_script (snd w')) in
+  (* every Pending poll consumed one cancel bit; polls = Pendings + the final one *)
+  let ncancel := zlen (filter (fun z => negb (z =? 0)) (firstn (Z.to_nat np) cancel)) in
   (MOP :: out ++ post chk SIZE (fst w') ++ (-6 :: (total - zlen (sr_stream (snd w'))) :: enc_bytes (rev (sr_log (snd w')))) ++
-     [-9; npolls; np; ncancel; wakes0 + np], cancel', wakes0 + np, w').
+     [-9; np + 1; np; ncancel; wakes0 + np], skipn (Z.to_nat np) cancel, wakes0 + np, w').
 Fixpoint arf_calls (n : nat) (SIZE which mode total wakes : Z) (cancel : list Z) (w : fb * sreader) : list Z :=
   match n with
   | O => []
